@@ -137,7 +137,8 @@ def state_level(ck, rng, states, lams, cap):
         X[0, :len(sl)] = sl
         X[0, len(sl):] = rng.uniform(0.2, 2.0, size=(nf - len(sl), m))
         XN = st.normalizers.get_normalized_feature_vector(X)
-        nonlocal_idx = list(range(attr["loc"][1], attr["loc"][2])) + list(range(attr["loc"][3], attr["loc"][4]))
+        # every nonlocal family: NLDF, fractional-Laplacian (own l0 / l1-dot / ld-dot / dd groups), SDMX
+        nonlocal_idx = list(range(attr["loc"][1], attr["loc"][4]))
         for lam in lams[:2]:
             XS = X * (lam ** usps)[None, :, None]
             XSN = st.normalizers.get_normalized_feature_vector(XS)
